@@ -2,6 +2,7 @@ import Cell2v.Lemmas.SessionOwner
 import Cell2v.Lemmas.Framing
 import Cell2v.Lemmas.SessionTerm
 import Cell2v.Lemmas.SessionDeliver
+import Cell2v.Lemmas.CloseFine
 /-!
 C05 — property theorems (one connection: one session-add, its messages in
 order, one session-remove).  All statements quantify over every schedule
@@ -247,6 +248,26 @@ theorem framing_delivers_all_packets (ps : List (Nat × List Nat)) (k : Nat) (cs
     framesOf k cs = (ps.map fun p => encode p.1 p.2, .closed) := framesOf_packets ps k cs hw hk h
 
 open Cell2v.Framing in
+/-- **a client that never half-closes gets the same messages through**: the read loop's messages on an open stream
+(the peer keeps its side open: an incomplete header or body leaves the reader parked in Read instead of failing) are those of
+the same bytes followed by FIN — so what is delivered does not depend on who ends the connection -/
+theorem framing_open_stream_same_messages (k : Nat) (cs : List (List Nat)) :
+    (framesOpen k cs).1 = (framesOf k cs).1 := framesOpen_msgs k cs
+
+open Cell2v.Framing in
+/-- every complete packet of a passive client's stream is delivered, in any segmentation -/
+theorem framing_open_delivers_all_packets (ps : List (Nat × List Nat)) (k : Nat) (cs : List (List Nat))
+    (hw : WellFormed ps) (hk : ps.length < k) (h : cs.flatten = encodeAll ps) :
+    (framesOpen k cs).1 = ps.map fun p => encode p.1 p.2 := by
+  rw [framesOpen_msgs, framesOf_packets ps k cs hw hk h]
+
+open Cell2v.Framing in
+/-- non-vacuity: two packets and half a header on an open stream: both delivered, the reader parked; a complete bad header: error -/
+example : framesOpen 5 [[1, 0], [0, 2, 7, 7, 4, 0, 0, 3, 9], [9, 9, 4, 0]] = ([[1, 0, 0, 2, 7, 7], [4, 0, 0, 3, 9, 9, 9]], .pending) ∧
+    framesOpen 5 [[3, 0, 0, 0, 9, 0, 0, 1]] = ([[3, 0, 0, 0]], .err) := by
+  decide
+
+open Cell2v.Framing in
 /-- **websocket framing: one packet per message**: `WSConn.GetNextMessage` returns a message that holds exactly one complete
 packet unchanged, and rejects a message in which anything follows the packet (two packets glued into one message end the session) -/
 theorem ws_one_packet_per_message (t : Nat) (body extra : List Nat) (ht : 1 ≤ t ∧ t ≤ 5) (hb : body.length < 16777216) :
@@ -422,6 +443,14 @@ theorem owner_map_agrees (M : Nat) (o : Own) (idOf : Nat → Nat) (ha : o.Agree 
     (∀ id, (o.remove id).1.Agree idOf) :=
   ⟨fun k hk => Own.agree_add M o idOf k ha hk, fun k => Own.lookup_add M o k, fun id => Own.agree_remove o idOf id ha⟩
 
+/-- **the announced session is live**: the id `AddSession` returns is registered to the new connection from the moment the
+handler is told of it — a lookup, `Kick(id)` or `PushMsg([id])` made from inside `OnSessionAdd` finds this session (the store precedes
+the announcement; no hypothesis on the map or the counter) -/
+theorem added_session_is_live (M : Nat) (o : Own) (k : Nat) :
+    (o.add M k).1.lookup (o.add M k).2 = some k ∧ (o.add M k).1.pushTargets [(o.add M k).2] = [k] := by
+  have h := Own.lookup_add M o k
+  exact ⟨h, by simp [Own.pushTargets, h]⟩
+
 /-- **pushes after the removal reach nobody**: once `RemoveSession` ran for connection `k`, a `PushMsg` aimed at its id (alone
 or among other ids) calls `Push` on no session for that id — it is skipped (`onSessionMissed`), the other ids of the same
 push are served as before. -/
@@ -480,5 +509,124 @@ example : idAt (2^32) 2 ∉ [0, 1].map (idAt (2^32)) ∧ idAt (2^32) 2 ≠ 0 :=
 /-- non-vacuity of `internal_steps_terminate`: a run of one thread step (the reader goes to its read) -/
 example : ∃ s', IRun init [.rdTop] s' ∧ work s' < work init :=
   ⟨_, IRun.cons (Or.inl (by simp [internalLbls])) rfl (IRun.nil _), by decide⟩
+
+/-! ### RemoveSession as a whole: the map entry, the handler's per-session close callback, the sessions' close callback -/
+
+/-- **the registered close callbacks run once**: `RemoveSession` of a registered connection (entry stored under its own id, ids not
+shared) deletes its entry, runs the close callback registered under its id — that one, once — and then the sessions' close
+callback; a second `RemoveSession` of the same connection finds nothing and runs nothing. -/
+theorem close_callbacks_run_once (o : Own) (h : Hnd) (idOf : Nat → Nat) (ha : o.Agree idOf)
+    (hinj : ∀ k k', idOf k = idOf k' → k = k') (k cb : Nat) (hl : (idOf k, k) ∈ o.live) :
+    (removeSession o (h.register (idOf k) cb) (idOf k) false).2.2 = { conn := some k, handlerCb := some cb, sessionsCb := true } ∧
+    ∀ p, (removeSession (removeSession o (h.register (idOf k) cb) (idOf k) false).1
+            (removeSession o (h.register (idOf k) cb) (idOf k) false).2.1 (idOf k) p).2.2 = {} := by
+  obtain ⟨hr, _⟩ := Own.remove_own o idOf ha hinj k hl
+  have hgone := Own.lookup_after_remove o idOf ha hinj k hl
+  have hrm : o.remove (idOf k) = ((o.remove (idOf k)).1, some k) := by rw [← hr]
+  have h1 : removeSession o (h.register (idOf k) cb) (idOf k) false =
+      ((o.remove (idOf k)).1, ((h.register (idOf k) cb).onRemove (idOf k) false).1,
+       { conn := some k, handlerCb := some cb, sessionsCb := true }) := by
+    unfold removeSession
+    rw [hrm]
+    simp [Hnd.onRemove, Hnd.lookup_register]
+  refine ⟨by rw [h1], ?_⟩
+  intro p
+  rw [h1]
+  generalize (o.remove (idOf k)).1 = o1 at hgone ⊢
+  simp only [removeSession, Own.remove, hgone]
+
+/-- the close callback registered for another session is untouched by a remove (whether or not the removed one's callback panics) -/
+theorem close_callback_of_other_session_untouched (o : Own) (h : Hnd) (id id' : Nat) (p : Bool) (hne : id' ≠ id) :
+    (removeSession o h id p).2.1.lookup id' = h.lookup id' := by
+  unfold removeSession
+  cases hr : o.remove id with
+  | mk o' r =>
+    cases r with
+    | none => rfl
+    | some k =>
+      simp only [Hnd.onRemove]
+      cases hl : h.lookup id with
+      | none => rfl
+      | some cb =>
+        cases p with
+        | true => rfl
+        | false => simp only [Bool.false_eq_true, if_false, Hnd.lookup, Hnd.find_filter_other _ _ _ hne]
+
+/-- **a panicking handler callback ends RemoveSession early** (what the harness scripts with `cbp=h`): the map entry is gone and
+the callback ran, but the sessions' close callback did not, and the handler keeps the stale entry (its `delete` comes after the call) -/
+theorem panicking_close_callback_ends_removal (o : Own) (h : Hnd) (idOf : Nat → Nat) (ha : o.Agree idOf)
+    (hinj : ∀ k k', idOf k = idOf k' → k = k') (k cb : Nat) (hl : (idOf k, k) ∈ o.live) :
+    (removeSession o (h.register (idOf k) cb) (idOf k) true).2.2 = { conn := some k, handlerCb := some cb, sessionsCb := false } ∧
+    (removeSession o (h.register (idOf k) cb) (idOf k) true).2.1.lookup (idOf k) = some cb ∧
+    (removeSession o (h.register (idOf k) cb) (idOf k) true).1.lookup (idOf k) = none := by
+  obtain ⟨hr, _⟩ := Own.remove_own o idOf ha hinj k hl
+  have hgone := Own.lookup_after_remove o idOf ha hinj k hl
+  have hrm : o.remove (idOf k) = ((o.remove (idOf k)).1, some k) := by rw [← hr]
+  have h1 : removeSession o (h.register (idOf k) cb) (idOf k) true =
+      ((o.remove (idOf k)).1, h.register (idOf k) cb, { conn := some k, handlerCb := some cb, sessionsCb := false }) := by
+    unfold removeSession
+    rw [hrm]
+    simp [Hnd.onRemove, Hnd.lookup_register]
+  rw [h1]
+  exact ⟨rfl, Hnd.lookup_register h _ cb, hgone⟩
+
+/-- non-vacuity: two connections with callbacks 71 and 72; removing the first runs 71 and the sessions' callback, leaves 72 -/
+example : let o2 := ((({} : Own).add (2^32) 1).1.add (2^32) 2).1
+    let h2 := (({} : Hnd).register 2 71).register 3 72
+    (removeSession o2 h2 2 false).2.2 = { conn := some 1, handlerCb := some 71, sessionsCb := true } ∧
+    (removeSession o2 h2 2 false).2.1.lookup 3 = some 72 ∧ (removeSession o2 h2 2 false).2.1.lookup 2 = none := by
+  decide
+
+/-! ### Close() statement by statement (`CloseFine`): the five effects of the critical section as separate steps -/
+
+open Cell2v.CloseFine in
+/-- **close once, statement level**: `Close()` with every effect of its critical section a step of its own
+(SetStatus / close(chanClose) / close(chSend) / conn.Close / OnSessionClose / Unlock), any number of callers arriving at any
+moment, pushers running freely beside them — in every reachable state: no channel is closed twice (no crash), conn.Close and
+OnSessionClose were each called at most once, the remove never precedes the conn.Close and is at most one step behind, and
+whenever nobody holds the mutex both happened exactly as often as the latch says (0 or 1 times). -/
+theorem close_statement_level_once (ls : List CloseFine.Lbl) (s : CloseFine.St) (h : CloseFine.runL {} ls = some s) :
+    s.closePanics = 0 ∧ s.connCloses ≤ 1 ∧ s.removes ≤ s.connCloses ∧ s.connCloses ≤ s.removes + 1 ∧
+    (s.ph = .none → s.removes = s.connCloses ∧ s.connCloses = (if s.chanClose then 1 else 0) ∧ s.chSend = s.chanClose) := by
+  have hi := finv_run ls {} s finv_init h
+  obtain ⟨ph, waiting, returned, sc, cc, cs, cp, nc, nr, pin, sq, rc, rf⟩ := s
+  cases ph <;> simp only [FInv] at hi <;> simp_all <;> (try split) <;> simp_all
+
+open Cell2v.CloseFine in
+/-- **a Close() that returned has closed**: as soon as ANY call of Close has returned — the one that did the work or one that
+found the latch set — the conn was closed exactly once and the remove posted exactly once (a caller never returns while
+the session is half-closed) -/
+theorem close_returned_means_closed (ls : List CloseFine.Lbl) (s : CloseFine.St) (h : CloseFine.runL {} ls = some s)
+    (hr : s.returned > 0) : s.removes = 1 ∧ s.connCloses = 1 :=
+  (rinv_run ls {} s rinv_init h).2 hr
+
+open Cell2v.CloseFine in
+/-- **Close never hangs on itself**: every step of a caller strictly decreases an explicit measure, and when no caller can
+move nobody is inside Close or waiting for its mutex (all callers have returned) -/
+theorem close_statement_level_terminates (s : CloseFine.St) :
+    (∀ l s', l ∈ CloseFine.internal → CloseFine.fire s l = some s' → CloseFine.work s' < CloseFine.work s) ∧
+    (CloseFine.stuck s = true → s.ph = .none ∧ s.waiting = 0) :=
+  ⟨fun l s' hl hf => work_decreases s s' l hl hf, stuck_idle s⟩
+
+open Cell2v.CloseFine in
+/-- **pushes racing with Close are dropped harmlessly**: once `chSend` is closed no step enqueues anything (a pusher that had
+passed the status test before `SetStatus(StatusClosed)` hits the closed channel: recovered), and the channel stays closed -/
+theorem push_racing_close_never_enqueues (s s' : CloseFine.St) (l : CloseFine.Lbl) (hf : CloseFine.fire s l = some s')
+    (hc : s.chSend = true) : s'.sendq = s.sendq ∧ s'.chSend = true := sendq_frozen s s' l hf hc
+
+open Cell2v.CloseFine in
+/-- non-vacuity: two callers and a pusher that tested the status before the first caller marked it; the pusher's send comes
+after close(chSend): recovered; the second caller finds the latch and returns -/
+example : ∃ s, CloseFine.runL {} [.call, .pushTest, .call, .lock, .test, .latch, .shutSend, .pushSend, .shutConn, .post, .unlock,
+    .lock, .test, .pushTest] = some s ∧ s.returned = 2 ∧ s.removes = 1 ∧ s.connCloses = 1 ∧ s.recovered = 1 ∧ s.refused = 1 ∧
+    s.sendq = 0 ∧ CloseFine.stuck s = true := by
+  refine ⟨_, rfl, ?_⟩; decide
+
+open Cell2v.CloseFine in
+/-- **defect witness (no re-test under the mutex)**: if the second caller ran the body again, `close(chanClose)` of a closed
+channel would crash the process and conn.Close / OnSessionClose would run twice -/
+theorem close_without_retest_crashes : ∃ s, CloseFine.runNoTest {} [.call, .call, .lock, .test, .latch, .shutSend, .shutConn, .post,
+    .unlock, .lock, .test, .latch, .shutSend, .shutConn, .post, .unlock] = some s ∧ s.closePanics = 2 ∧ s.connCloses = 2 ∧ s.removes = 2 := by
+  refine ⟨_, rfl, ?_⟩; decide
 
 end Cell2v.Props.C05
